@@ -570,11 +570,9 @@ VARIANTS = {
            "        if self.axis == 'x':\n            surf.geometry.cs.ry = new_value")),
         M('history-not-pushed',
           (OPT, "        x0 = [var.value for var in self.problem.variables]\n"
-                "        self._x.append(x0)\n        bounds = tuple([var.bounds "
-                "for var in self.problem.variables])\n\n        options",
+                "        self._x.append(x0)\n\n        options",
            "        x0 = [var.value for var in self.problem.variables]\n"
-           "        bounds = tuple([var.bounds "
-           "for var in self.problem.variables])\n\n        options")),
+           "\n        options")),
         T('fun-commuted',
           (O + 'optimization/operand/operand.py', 'return self.weight * self.delta()',
            'return self.delta() * self.weight')),
@@ -713,10 +711,10 @@ VARIANTS = {
         M('formula4-arity',
           (MF, 'for k in range(9, len(c), 2):', 'for k in range(9, len(c) + 2, 2):')),
         M('tabulated-nk-columns',
-          (MF, "                    self._n = arr[:, 1]\n                    "
-               "self._k = arr[:, 2]",
-           "                    self._n = arr[:, 2]\n                    "
-           "self._k = arr[:, 1]")),
+          (MF, "                    self._k_wavelength = arr[:, 0]\n"
+               "                    self._k = arr[:, 2]",
+           "                    self._k_wavelength = arr[:, 0]\n"
+           "                    self._k = arr[:, 1]")),
         M('interp-args-swapped',
           (MF, 'return np.interp(w, self._n_wavelength, self._n)',
            'return np.interp(w, self._n, self._n_wavelength)')),
@@ -1301,4 +1299,128 @@ _RT7 = {
 }
 _RT7['C07'] = [v for v in _RT7['C03'] if v[0] == 'mutant'][:2]
 for _p, _l in _RT7.items():
+    VARIANTS.setdefault(_p, []).extend(_l)
+
+
+_RT8 = {
+    'C14': [
+        M('rt8-bounds-guard-dropped',
+          (OPT, "        if has_bounds and str(method).lower() in "
+                "self._UNBOUNDED_METHODS:\n"
+                "            raise ValueError(f'Method \"{method}\" cannot "
+                "handle variable '\n"
+                "                             'bounds.')\n", '')),
+        M('rt8-bounds-guard-no-lower',
+          (OPT, 'if has_bounds and str(method).lower() in',
+           'if has_bounds and str(method) in')),
+        M('rt8-bounds-guard-short-list',
+          (OPT, "_UNBOUNDED_METHODS = ('cg', 'bfgs', 'newton-cg', 'dogleg', "
+                "'trust-ncg',", "_UNBOUNDED_METHODS = ('cg', 'newton-cg', "
+                                "'dogleg', 'trust-ncg',")),
+        T('rt8-T-bounds-guard-inline',
+          (OPT, 'str(method).lower() in self._UNBOUNDED_METHODS',
+           "str(method).lower() in ('cg', 'bfgs', 'newton-cg', 'dogleg', "
+           "'trust-ncg', 'trust-exact', 'trust-krylov', 'custom')")),
+    ],
+}
+for _p, _l in _RT8.items():
+    VARIANTS.setdefault(_p, []).extend(_l)
+
+_PR = O + 'rays/polarized_rays.py'
+_RT9 = {
+    'C16': [
+        M('rt9-pol-intensity-overwrite',
+          (_PR, 'self.i = self.i * np.sum(np.abs(E1)**2, axis=1)',
+           'self.i = np.sum(np.abs(E1)**2, axis=1)')),
+        M('rt9-unpol-intensity-from-launch',
+          (_PR, 'self.i = self.i * (np.sum(np.abs(E1_x)**2, axis=1) +',
+           'self.i = self._i0 * (np.sum(np.abs(E1_x)**2, axis=1) +')),
+    ],
+    'C17': [
+        M('rt9-unpol-not-halved',
+          (_PR, 'np.sum(np.abs(E1_y)**2, axis=1)) / 2',
+           'np.sum(np.abs(E1_y)**2, axis=1))')),
+        M('rt9-unpol-same-state-twice',
+          (_PR, "state_y = PolarizationState(is_polarized=True, Ex=0.0, "
+                "Ey=1.0,", "state_y = PolarizationState(is_polarized=True, "
+                           "Ex=1.0, Ey=0.0,")),
+        M('rt9-pol-branch-launch-intensity',
+          (_PR, 'self.i = self.i * np.sum(np.abs(E1)**2, axis=1)',
+           'self.i = self._i0 * np.sum(np.abs(E1)**2, axis=1)')),
+        M('rt9-simple-coating-no-update',
+          (CT, '        rays.i *= self.transmittance\n        # polarized rays '
+               'follow the change of direction (identity Jones matrix)\n'
+               '        rays.update()\n',
+           '        rays.i *= self.transmittance\n')),
+        M('rt9-simple-coating-update-twice',
+          (CT, '        rays.i *= self.reflectance\n        # polarized rays '
+               'follow the change of direction (identity Jones matrix)\n'
+               '        rays.update()\n',
+           '        rays.i *= self.reflectance\n        rays.update()\n'
+           '        rays.update()\n')),
+        T('rt9-T-unpol-half-first',
+          (_PR, 'self.i = self.i * (np.sum(np.abs(E1_x)**2, axis=1) +\n'
+                '                               np.sum(np.abs(E1_y)**2, '
+                'axis=1)) / 2',
+           'self.i = 0.5 * self.i * (np.sum(np.abs(E1_x)**2, axis=1) +\n'
+           '                               np.sum(np.abs(E1_y)**2, '
+           'axis=1))')),
+    ],
+}
+for _p, _l in _RT9.items():
+    VARIANTS.setdefault(_p, []).extend(_l)
+
+_RT10 = {
+    'C18': [
+        M('rt10-f6-int-neg-power',
+          (MF, 'n += c[k] / (c[k+1] - 1 / w**2)',
+           'n += c[k] / (c[k+1] - w**-2)')),
+        M('rt10-f4-term-always',
+          (MF, '                if c[k] != 0:\n                    n = n + '
+               'c[k]*w**c[k+1] / (w**2 - c[k+2]**c[k+3])',
+           '                n = n + c[k]*w**c[k+1] / (w**2 - '
+           'c[k+2]**c[k+3])')),
+        M('rt10-f4-second-term-dropped',
+          (MF, '            for k in (1, 5):\n', '            for k in (1,):\n')),
+        M('rt10-nk-always-registers',
+          (MF, '                    if self._n_formula is None:\n'
+               '                        self._n_wavelength = arr[:, 0]\n'
+               '                        self._n = arr[:, 1]\n'
+               '                        self._set_formula_type(sub_data_type)',
+           '                    self._n_wavelength = arr[:, 0]\n'
+           '                    self._n = arr[:, 1]\n'
+           '                    self._set_formula_type(sub_data_type)')),
+        M('rt10-nk-k-guarded',
+          (MF, "                    self._k_wavelength = arr[:, 0]\n"
+               "                    self._k = arr[:, 2]\n"
+               "                    # a file may combine",
+           "                    # a file may combine")),
+        T('rt10-T-f4-eq-form',
+          (MF, '                if c[k] != 0:\n                    n = n + '
+               'c[k]*w**c[k+1] / (w**2 - c[k+2]**c[k+3])',
+           '                if c[k] == 0:\n                    continue\n'
+           '                n = n + c[k]*w**c[k+1] / (w**2 - '
+           'c[k+2]**c[k+3])')),
+    ],
+}
+for _p, _l in _RT10.items():
+    VARIANTS.setdefault(_p, []).extend(_l)
+
+
+_RT11 = {
+    'C19': [
+        M('rt11-load-applies-pickups',
+          (O + 'pickup.py',
+           '            manager.pickups.append(Pickup.from_dict(optic, '
+           'pickup_data))\n',
+           '            manager.add(**pickup_data)\n')),
+        M('rt11-load-updates',
+          (O + 'pickup.py',
+           '            manager.pickups.append(Pickup.from_dict(optic, '
+           'pickup_data))\n        return manager',
+           '            manager.pickups.append(Pickup.from_dict(optic, '
+           'pickup_data))\n        manager.apply()\n        return manager')),
+    ],
+}
+for _p, _l in _RT11.items():
     VARIANTS.setdefault(_p, []).extend(_l)
